@@ -4,7 +4,7 @@ import json, subprocess
 from plans import PLANS, LEVEL
 
 HOOK_COMMITS = ["6653079"]
-FIX_COMMITS = ["3f74f98", "e572c24", "f6fe648", "21e053f", "a0d3ecc", "936095d"]
+FIX_COMMITS = ["3f74f98", "e572c24", "f6fe648", "21e053f", "a0d3ecc", "936095d", "5df04ec"]
 
 TEXT = {
     "C01": ("exploration", "DESIGN.md §3 C01",
